@@ -1,6 +1,6 @@
 (** * C16 — what IS rejected: zero and non-positive sizes; and where decoding cannot panic *)
 From Coq Require Import ZArith QArith String Ascii List Bool Lia Lqa.
-From Texel Require Import Tms.Json Tms.Model Tms.ProofsC16b Tms.ProofsC16c.
+From Texel Require Import Tms.Json Tms.Model Tms.ProofsC15 Tms.ProofsC16b Tms.ProofsC16c.
 From Texel.Gen Require Import ConstsGen TmsData.
 Import ListNotations.
 Open Scope string_scope.
@@ -52,6 +52,20 @@ Definition size_keys : list string := ["tileWidth"; "tileHeight"; "matrixWidth";
 Lemma conv_uint_small : forall d q, f64_dec d = FNum q -> (-1 < q)%Q -> (q < 1)%Q -> conv_uint (JNum d) = CVal 0.
 Proof. intros d q E H1 H2. unfold conv_uint. rewrite E, (go_uint_small q H1 H2). reflexivity. Qed.
 
+Definition pos_float (d : dec) : bool := match f64_dec d with FNum q => Qltb 0 q | FInf s => negb s end.
+
+Lemma tm_valid_parts : forall m, tm_valid m = true ->
+  pos_float (tm_scaleDenominator m) = true /\ pos_float (tm_cellSize m) = true /\
+  1 <= tm_tileWidth m /\ 1 <= tm_tileHeight m /\ 1 <= tm_matrixWidth m /\ 1 <= tm_matrixHeight m.
+Proof.
+  intros m H. unfold tm_valid in H.
+  apply andb_true_iff in H. destruct H as [H A8]. apply andb_true_iff in H. destruct H as [H A7].
+  apply andb_true_iff in H. destruct H as [H A6]. apply andb_true_iff in H. destruct H as [H A5].
+  apply andb_true_iff in H. destruct H as [H A4]. apply andb_true_iff in H. destruct H as [H A3].
+  apply andb_true_iff in H. destruct H as [A1 A2].
+  unfold pos_float. repeat split; try assumption; apply Z.leb_le; assumption.
+Qed.
+
 Theorem zero_size_rejected_tm : forall o k d q m,
   In k size_keys -> lookup_last k o = Some (JNum d) -> f64_dec d = FNum q -> (-1 < q)%Q -> (q < 1)%Q ->
   decodeTM o <> Ok m.
@@ -59,13 +73,12 @@ Proof.
   intros o k d q m Hk HL HF H1 H2 HD. apply decodeTM_ok in HD.
   destruct HD as [HV [E1 [E2 [E3 [E4 _]]]]].
   assert (C : member k conv_uint o = CVal 0) by (unfold member; rewrite HL; eapply conv_uint_small; eauto).
-  unfold tm_valid in HV.
-  repeat (apply andb_true_iff in HV; destruct HV as [HV ?]).
+  apply tm_valid_parts in HV. destruct HV as [_ [_ [V1 [V2 [V3 V4]]]]].
   cbn [size_keys In] in Hk. destruct Hk as [Hk|[Hk|[Hk|[Hk|[]]]]]; subst k.
-  - rewrite E1, C in *. discriminate.
-  - rewrite E2, C in *. discriminate.
-  - rewrite E3, C in *. discriminate.
-  - rewrite E4, C in *. discriminate.
+  - rewrite E1, C in V1. cbn [cval] in V1. lia.
+  - rewrite E2, C in V2. cbn [cval] in V2. lia.
+  - rewrite E3, C in V3. cbn [cval] in V3. lia.
+  - rewrite E4, C in V4. cbn [cval] in V4. lia.
 Qed.
 
 Theorem nonpositive_float_rejected_tm : forall o k d q m,
@@ -75,8 +88,242 @@ Proof.
   intros o k d q m Hk HL HF Hq HD. apply decodeTM_ok in HD.
   destruct HD as [HV [_ [_ [_ [_ [E5 [E6 _]]]]]]].
   assert (C : member k conv_float o = CVal d) by (unfold member; rewrite HL; unfold conv_float; rewrite HF; reflexivity).
-  unfold tm_valid in HV. repeat (apply andb_true_iff in HV; destruct HV as [HV ?]).
+  apply tm_valid_parts in HV. destruct HV as [V1 [V2 _]].
   destruct Hk; subst k.
-  - rewrite E5, C in *. cbn [cval] in *. rewrite HF in *.
-    match goal with X : Qltb 0 q = true |- _ => apply ProofsC15_Qltb in X end.
-Abort.
+  - rewrite E5, C in V2. cbn [cval] in V2. unfold pos_float in V2. rewrite HF in V2. apply Qltb_true in V2. lra.
+  - rewrite E6, C in V1. cbn [cval] in V1. unfold pos_float in V1. rewrite HF in V1. apply Qltb_true in V1. lra.
+Qed.
+
+(** ** lifting to documents: the tile matrices a successful decode went through *)
+Lemma decodeTMs_each : forall l acc ms, decodeTMs l acc = Ok ms -> forall o, In (JObj o) l -> exists m, decodeTM o = Ok m.
+Proof.
+  induction l as [|x r IH]; intros acc ms H o HI; [contradiction|].
+  simpl in H. destruct x; try discriminate.
+  destruct (decodeTM l) as [m| | |] eqn:ED; try discriminate. cbn [bind] in H.
+  destruct (parse_int (tm_id m)); [|discriminate].
+  destruct HI as [HI|HI].
+  - inversion HI; subst. eauto.
+  - eapply IH; eauto.
+Qed.
+
+Lemma decodeTMs_all_objects : forall l acc ms, decodeTMs l acc = Ok ms -> forall x, In x l -> exists o, x = JObj o.
+Proof.
+  induction l as [|x r IH]; intros acc ms H y HI; [contradiction|].
+  simpl in H. destruct x; try discriminate.
+  destruct (decodeTM l) as [m| | |]; try discriminate. cbn [bind] in H.
+  destruct (parse_int (tm_id m)); [|discriminate].
+  destruct HI as [HI|HI]; [subst; eauto|eapply IH; eauto].
+Qed.
+
+(** the value of the LAST "tileMatrices" member is what gets decoded *)
+Lemma top_step_tms : forall a kv a', top_step a kv = Ok a' ->
+  ta_tms a' = if String.eqb (fst kv) "tileMatrices" then Some (snd kv) else ta_tms a.
+Proof.
+  intros a [k v] a' H. unfold top_step in H. cbn [fst snd].
+  assert (S1 : forall set, (forall s, ta_tms (set s) = ta_tms a) -> top_str v set a = Ok a' -> ta_tms a' = ta_tms a).
+  { intros set Hs HH. unfold top_str in HH. destruct (conv_str v); try discriminate; inversion HH; subst; auto. }
+  assert (S2 : forall set, (forall s, ta_tms (set s) = ta_tms a) -> top_strs v set a = Ok a' -> ta_tms a' = ta_tms a).
+  { intros set Hs HH. unfold top_strs in HH. destruct (conv_strs v); try discriminate; inversion HH; subst; auto. }
+  destruct (String.eqb k "id") eqn:K1. { apply String.eqb_eq in K1. subst k. cbn. eapply S1; [|exact H]. reflexivity. }
+  destruct (String.eqb k "title") eqn:K2. { apply String.eqb_eq in K2. subst k. cbn. eapply S1; [|exact H]. reflexivity. }
+  destruct (String.eqb k "description") eqn:K3. { apply String.eqb_eq in K3. subst k. cbn. eapply S1; [|exact H]. reflexivity. }
+  destruct (String.eqb k "keywords") eqn:K4. { apply String.eqb_eq in K4. subst k. cbn. eapply S2; [|exact H]. reflexivity. }
+  destruct (String.eqb k "uri") eqn:K5. { apply String.eqb_eq in K5. subst k. cbn. eapply S1; [|exact H]. reflexivity. }
+  destruct (String.eqb k "orderedAxes") eqn:K6. { apply String.eqb_eq in K6. subst k. cbn. eapply S2; [|exact H]. reflexivity. }
+  destruct (String.eqb k "wellKnownScaleSet") eqn:K7. { apply String.eqb_eq in K7. subst k. cbn. eapply S1; [|exact H]. reflexivity. }
+  destruct (String.eqb k "boundingBox") eqn:K8.
+  { apply String.eqb_eq in K8. subst k. cbn. destruct (decodeBBox v); try discriminate. cbn [bind] in H. inversion H; subst. reflexivity. }
+  destruct (nums_finite v); [|discriminate].
+  destruct (String.eqb k "crs") eqn:K9. { apply String.eqb_eq in K9. subst k. cbn. inversion H; subst. reflexivity. }
+  destruct (String.eqb k "tileMatrices"); inversion H; subst; reflexivity.
+Qed.
+
+Lemma fold_top_tms : forall o a a', foldO top_step o a = Ok a' ->
+  ta_tms a' = match lookup_last "tileMatrices" o with Some v => Some v | None => ta_tms a end.
+Proof.
+  induction o as [|[k v] r IH]; intros a a' H.
+  - cbn [foldO] in H. inversion H; subst. reflexivity.
+  - rewrite foldO_cons in H. destruct (top_step a (k, v)) as [a1| | |] eqn:E; try discriminate. cbn [bind] in H.
+    rewrite (IH _ _ H). cbn [lookup_last]. destruct (lookup_last "tileMatrices" r); [reflexivity|].
+    rewrite (top_step_tms _ _ _ E). cbn [fst snd]. rewrite (String.eqb_sym "tileMatrices" k). destruct (String.eqb k "tileMatrices"); reflexivity.
+Qed.
+
+Theorem decoded_matrices_lemma : forall o t, decodeTMS (JObj o) = Ok t ->
+  exists l, lookup_last "tileMatrices" o = Some (JArr l) /\
+    forall x, In x l -> exists tmo m, x = JObj tmo /\ decodeTM tmo = Ok m.
+Proof.
+  intros o t H. unfold decodeTMS in H.
+  destruct (foldO top_step o top_empty) as [a| | |] eqn:EF; try discriminate. cbn [bind] in H.
+  assert (HT := fold_top_tms _ _ _ EF). cbn [top_empty ta_tms] in HT.
+  unfold decodeTop in H. destruct (ta_crs a); [|discriminate].
+  destruct (decodeCRS j); try discriminate. cbn [bind] in H.
+  destruct (ta_tms a) as [[| | | |l|]|] eqn:ET; try discriminate.
+  destruct (decodeTMs l []) as [ms| | |] eqn:EM; try discriminate.
+  exists l. split.
+  - destruct (lookup_last "tileMatrices" o); [inversion HT; reflexivity|discriminate].
+  - intros x Hx. destruct (decodeTMs_all_objects _ _ _ EM x Hx) as [tmo E]. subst x.
+    destruct (decodeTMs_each _ _ _ EM tmo Hx) as [m Hm]. eauto.
+Qed.
+
+(** nonpositive_rejected at the level of documents *)
+Theorem nonpositive_rejected_lemma : forall o l tmo k d q,
+  lookup_last "tileMatrices" o = Some (JArr l) -> In (JObj tmo) l ->
+  lookup_last k tmo = Some (JNum d) -> f64_dec d = FNum q ->
+  (In k size_keys /\ (-1 < q)%Q /\ (q < 1)%Q) \/ ((k = "cellSize" \/ k = "scaleDenominator") /\ (q <= 0)%Q) ->
+  forall t, decodeTMS (JObj o) <> Ok t.
+Proof.
+  intros o l tmo k d q HL HI HK HF HC t HD.
+  destruct (decoded_matrices_lemma o t HD) as [l' [HL' HA]]. rewrite HL in HL'. inversion HL'; subst l'.
+  destruct (HA _ HI) as [tmo' [m [E Hm]]]. inversion E; subst tmo'.
+  destruct HC as [[Hk [H1 H2]]|[Hk Hq]].
+  - exact (zero_size_rejected_tm tmo k d q m Hk HK HF H1 H2 Hm).
+  - exact (nonpositive_float_rejected_tm tmo k d q m Hk HK HF Hq Hm).
+Qed.
+
+(** ** decode_total, the part that holds: decoding can only panic on a point array with more than 2 elements *)
+Definition point_key (k : string) : bool :=
+  String.eqb k "pointOfOrigin" || String.eqb k "lowerLeft" || String.eqb k "upperRight".
+Definition short_arr (v : json) : bool := match v with JArr l => Nat.leb (length l) 2 | _ => true end.
+Fixpoint points_short (j : json) : bool :=
+  match j with
+  | JArr l => forallb points_short l
+  | JObj l => forallb (fun kv => (if point_key (fst kv) then short_arr (snd kv) else true) && points_short (snd kv)) l
+  | _ => true
+  end.
+
+Definition no_panic {A} (r : outcome A) : Prop := r <> Panic /\ r <> ErrorOrPanic.
+
+Lemma point_loop_no_panic : forall l i p, (length l + i <= 2)%nat -> point_loop l i p <> CPanic.
+Proof.
+  induction l as [|x r IH]; intros i p H; simpl.
+  - discriminate.
+  - simpl in H. destruct x; try discriminate.
+    + apply IH. lia.
+    + destruct (f64_dec d); [|discriminate]. destruct i as [|[|i]].
+      * apply IH. lia.
+      * apply IH. lia.
+      * lia.
+Qed.
+
+Lemma conv_point_no_panic : forall v, short_arr v = true -> conv_point v <> CPanic.
+Proof.
+  intros v H. unfold conv_point. destruct v; try discriminate.
+  apply point_loop_no_panic. simpl in H. apply Nat.leb_le in H. lia.
+Qed.
+
+Lemma points_short_member : forall o k v, points_short (JObj o) = true -> In (k, v) o ->
+  points_short v = true /\ (point_key k = true -> short_arr v = true).
+Proof.
+  intros o k v H HI. cbn [points_short] in H. rewrite forallb_forall in H. specialize (H _ HI). cbn [fst snd] in H.
+  apply andb_true_iff in H. destruct H as [H1 H2]. split; auto. intro K. rewrite K in H1. exact H1.
+Qed.
+
+Lemma decodeTM_no_panic : forall o, points_short (JObj o) = true -> no_panic (decodeTM o).
+Proof.
+  intros o H. unfold decodeTM.
+  assert (NP : is_panic (member "pointOfOrigin" conv_point o) = false).
+  { unfold member. destruct (lookup_last "pointOfOrigin" o) as [v|] eqn:E; [|reflexivity].
+    apply lookup_last_in in E. destruct (points_short_member _ _ _ H E) as [_ S].
+    assert (C := conv_point_no_panic v (S eq_refl)). destruct (conv_point v); try reflexivity. contradiction. }
+  rewrite NP. cbn [andb].
+  match goal with |- no_panic (if ?c then _ else _) => destruct c end; [split; discriminate|].
+  match goal with |- no_panic (if ?c then _ else _) => destruct c end; split; discriminate.
+Qed.
+
+Lemma decodeTMs_no_panic : forall l acc, points_short (JArr l) = true -> no_panic (decodeTMs l acc).
+Proof.
+  induction l as [|x r IH]; intros acc H; simpl.
+  - split; discriminate.
+  - cbn [points_short forallb] in H. apply andb_true_iff in H. destruct H as [H1 H2].
+    destruct x; try (split; discriminate).
+    destruct (decodeTM_no_panic l H1) as [N1 N2].
+    destruct (decodeTM l) as [m| | |]; cbn [bind]; try (split; discriminate); try contradiction.
+    destruct (parse_int (tm_id m)); [apply IH; exact H2|split; discriminate].
+Qed.
+
+Lemma decodeCRS_no_panic : forall j, no_panic (decodeCRS j).
+Proof.
+  intros j. unfold decodeCRS.
+  assert (T : forall o a, no_panic (match decodeCrsURI o a with
+                                    | Some c => Ok c
+                                    | None => match decodeCrsWKT o with
+                                              | Some c => Ok c
+                                              | None => match decodeCrsRef o with Some c => Ok c | None => Error end
+                                              end
+                                    end)).
+  { intros o a. destruct (decodeCrsURI o a); [split; discriminate|]. destruct (decodeCrsWKT o); [split; discriminate|].
+    destruct (decodeCrsRef o); split; discriminate. }
+  destruct j; try (split; discriminate); apply T.
+Qed.
+
+Lemma foldO_no_panic : forall {A S} (f : S -> A -> outcome S) l,
+  (forall s x, In x l -> no_panic (f s x)) -> forall s0, no_panic (foldO f l s0).
+Proof.
+  intros A S f. induction l as [|x r IH]; intros H s0; simpl.
+  - split; discriminate.
+  - destruct (H s0 x (or_introl eq_refl)) as [N1 N2].
+    destruct (f s0 x) as [s1| | |]; cbn [bind]; try (split; discriminate); try contradiction.
+    apply IH. intros s y Hy. apply H. right; exact Hy.
+Qed.
+
+Lemma bb_step_no_panic : forall a k v, (point_key k = true -> short_arr v = true) -> no_panic (bb_step a (k, v)).
+Proof.
+  intros a k v H. unfold bb_step.
+  destruct (String.eqb k "lowerLeft") eqn:K1.
+  { assert (S : short_arr v = true) by (apply H; unfold point_key; rewrite K1; apply orb_true_r || (rewrite orb_true_r; reflexivity)).
+    assert (C := conv_point_no_panic v S). destruct (conv_point v); try (split; discriminate). contradiction. }
+  destruct (String.eqb k "upperRight") eqn:K2.
+  { assert (S : short_arr v = true) by (apply H; unfold point_key; rewrite K2; apply orb_true_r).
+    assert (C := conv_point_no_panic v S). destruct (conv_point v); try (split; discriminate). contradiction. }
+  destruct (String.eqb k "orderedAxes"). { destruct (conv_strs v); split; discriminate. }
+  destruct (nums_finite v); [|split; discriminate]. destruct (String.eqb k "crs"); split; discriminate.
+Qed.
+
+Lemma decodeBBox_no_panic : forall j, points_short j = true -> no_panic (decodeBBox j).
+Proof.
+  intros j H. unfold decodeBBox. destruct j as [| | | | |o]; try (split; discriminate).
+  assert (F : no_panic (foldO bb_step o (MkBBAcc None None None None))).
+  { apply foldO_no_panic. intros s [k v] HI. apply bb_step_no_panic. apply (points_short_member _ _ _ H HI). }
+  destruct F as [F1 F2].
+  destruct (foldO bb_step o (MkBBAcc None None None None)) as [a| | |]; cbn [bind]; try (split; discriminate); try contradiction.
+  destruct (ba_crs a) as [cj|]; [|split; discriminate].
+  destruct (decodeCRS_no_panic cj) as [C1 C2].
+  destruct (decodeCRS cj); cbn [bind]; try (split; discriminate); try contradiction.
+  destruct (ba_ll a); [|split; discriminate]. destruct (ba_ur a); [|split; discriminate].
+  destruct (ba_axes a); [destruct (Nat.eqb _ _)|]; split; discriminate.
+Qed.
+
+Lemma top_step_no_panic : forall a k v, points_short v = true -> no_panic (top_step a (k, v)).
+Proof.
+  intros a k v H. unfold top_step.
+  assert (S1 : forall set, no_panic (top_str v set a)) by (intros; unfold top_str; destruct (conv_str v); split; discriminate).
+  assert (S2 : forall set, no_panic (top_strs v set a)) by (intros; unfold top_strs; destruct (conv_strs v); split; discriminate).
+  destruct (String.eqb k "id"); [apply S1|]. destruct (String.eqb k "title"); [apply S1|].
+  destruct (String.eqb k "description"); [apply S1|]. destruct (String.eqb k "keywords"); [apply S2|].
+  destruct (String.eqb k "uri"); [apply S1|]. destruct (String.eqb k "orderedAxes"); [apply S2|].
+  destruct (String.eqb k "wellKnownScaleSet"); [apply S1|].
+  destruct (String.eqb k "boundingBox").
+  { destruct (decodeBBox_no_panic v H) as [B1 B2]. destruct (decodeBBox v); cbn [bind]; try (split; discriminate); contradiction. }
+  destruct (nums_finite v); [|split; discriminate].
+  destruct (String.eqb k "crs"); [split; discriminate|]. destruct (String.eqb k "tileMatrices"); split; discriminate.
+Qed.
+
+Theorem decode_total_partial_lemma : forall j, points_short j = true -> decodeTMS j <> Panic /\ decodeTMS j <> ErrorOrPanic.
+Proof.
+  intros j H. change (no_panic (decodeTMS j)). unfold decodeTMS. destruct j as [| | | | |o]; try (split; discriminate).
+  assert (F : no_panic (foldO top_step o top_empty)).
+  { apply foldO_no_panic. intros s [k v] HI. apply top_step_no_panic. apply (points_short_member _ _ _ H HI). }
+  destruct F as [F1 F2].
+  destruct (foldO top_step o top_empty) as [a| | |] eqn:EF; cbn [bind]; try (split; discriminate); try contradiction.
+  assert (HT := fold_top_tms _ _ _ EF). cbn [top_empty ta_tms] in HT.
+  unfold decodeTop. destruct (ta_crs a) as [cj|]; [|split; discriminate].
+  destruct (decodeCRS_no_panic cj) as [C1 C2].
+  destruct (decodeCRS cj); cbn [bind]; try (split; discriminate); try contradiction.
+  destruct (ta_tms a) as [[| | | |l|]|] eqn:ET; try (split; discriminate).
+  assert (PS : points_short (JArr l) = true).
+  { destruct (lookup_last "tileMatrices" o) as [v|] eqn:EL; [|discriminate].
+    inversion HT; subst v. apply lookup_last_in in EL. apply (points_short_member _ _ _ H EL). }
+  destruct (decodeTMs_no_panic l [] PS) as [M1 M2].
+  destruct (decodeTMs l []) as [ms| | |]; cbn [bind]; try (split; discriminate); try contradiction.
+  match goal with |- no_panic (if ?c then _ else _) => destruct c end; split; discriminate.
+Qed.
